@@ -1493,7 +1493,7 @@ def replay_iod_select(d):
     """Stored rows as chosen by the solver (epochs, owner, type), positions on a circular orbit; real database and query."""
     from resonaate.physics.bodies import Earth
 
-    n, mu = 7000.0, Earth.mu
+    n, mu = float(d.get("radius_km", 7000.0)), Earth.mu
     Q = _generic_rotation()
     w = math.sqrt(mu / n ** 3)
 
@@ -1538,6 +1538,15 @@ def replay_iod_select(d):
     return bool(e1 > 1e-3 or e2 > 1e-3 or e3 > 1e-2 or e4 > 1e-3 or tm != exp_tm), detail
 
 
+GENERIC_IOD_POINTS = [
+    {"radius_km": 7000.0, "t_det": 100.0, "t_now": 1500.0, "cur_any": True, "cur_radar": True, "stored": [{"t": 700.0, "mine": True, "optical": False}]},
+    {"radius_km": 42164.0, "t_det": 100.0, "t_now": 25300.0, "cur_any": True, "cur_radar": True, "stored": [{"t": 1300.0, "mine": True, "optical": False}]},
+    {"radius_km": 100000.0, "t_det": 100.0, "t_now": 91900.0, "cur_any": True, "cur_radar": True, "stored": [{"t": 1000.0, "mine": True, "optical": False}]},
+    {"radius_km": 150000.0, "t_det": 100.0, "t_now": 125000.0, "cur_any": True, "cur_radar": True,
+     "stored": [{"t": 500.0, "mine": True, "optical": False}, {"t": 2000.0, "mine": True, "optical": False}]},
+]
+
+
 def o5a_selection(rep, nrows=2):
     res = explore(lambda: _run_iod(nrows, False), max_paths=6000, max_depth=120)
     rep.note(f"paths={len(res)}")
@@ -1567,7 +1576,23 @@ def o5a_selection(rep, nrows=2):
         if _done(rep):
             return
         if r.exc is not None:
-            rep.prove(f"no-exception#{k}", z3.BoolVal(False), r.constraints + sep, sample=f"determineNewEstimateState does not raise ({r.exc!r})"[:200], **kw)
+            # a path the proxies cannot follow (design section 10): generic points of the path - observation pairs minutes, hours and more than a day
+            # apart on orbits small and large enough for the single-pass gate - are run on the real code against the independent expectation; a
+            # reproduced deviation is the violation, otherwise the path stays a harness error (nothing is claimed for it)
+            hit = None
+            for pt in GENERIC_IOD_POINTS:
+                try:
+                    bad, detail = replay_iod_select(pt)
+                except Exception as e:  # noqa: BLE001
+                    bad, detail = False, {"raised": repr(e)}
+                if bad:
+                    hit = (pt, detail)
+                    break
+            if hit is not None:
+                rep.prove(f"generic-point#{k}", z3.BoolVal(False), [], inputs=lambda m, pt=hit[0]: pt, replay=replay_iod_select,
+                          sample="a path the proxies cannot follow, judged on the real code at generic points (stored/current radar observations 10 min .. 1.4 days apart)")
+            else:
+                rep.prove(f"no-exception#{k}", z3.BoolVal(False), r.constraints + sep, sample=f"determineNewEstimateState does not raise ({r.exc!r})"[:200], **kw)
             continue
         sol, rows, cur, calls, db, t_det, t_now = r.out
         cons = r.constraints
